@@ -1492,6 +1492,10 @@ def _getattr(self, item: str, **kwargs) -> Any:
         _non_tensordict = self._non_tensordict
         if _non_tensordict:
             out = _non_tensordict.get(item, NO_DEFAULT)
+            if out is None and item in _tensordict.keys():
+                # a None placeholder must not hide an entry written through a
+                # tensordict method (create_nested, rename_key_, setdefault, ...)
+                out = NO_DEFAULT
             if out is not NO_DEFAULT:
                 if (
                     isinstance(self, NonTensorData)
